@@ -413,6 +413,7 @@ func (s *Stack) Step(op Op) []Outcome {
 		if ret.Status == Live {
 			ret.Status = Done
 		}
+		base := n.Clone() // popped, parent not charged yet
 		reach := false
 		for r := 0; r < NRes; r++ {
 			if !p.Tracked(r) {
@@ -442,8 +443,17 @@ func (s *Stack) Step(op Op) []Outcome {
 		}
 		out := []Outcome{{Next: n, Popped: ret}}
 		if p.Tainted() {
-			// charging a context that is promised nothing may terminate it
+			// charging a context that is promised nothing may terminate it:
+			// after the charge, or by refusing it (wholly, or the memory part
+			// after the cpu part was taken)
 			k := n.Clone()
+			kill(k.Top())
+			out = append(out, Outcome{Next: k, Signal: true, Popped: ret})
+			k = base.Clone()
+			kill(k.Top())
+			out = append(out, Outcome{Next: k, Signal: true, Popped: ret})
+			k = base.Clone()
+			k.Top().Used[Cpu] = new(big.Int).Set(n.Top().Used[Cpu])
 			kill(k.Top())
 			out = append(out, Outcome{Next: k, Signal: true, Popped: ret})
 		}
